@@ -50,3 +50,37 @@ Definition sdm_absolute (obs hist fut : list Q) : list Q :=
   let shift := QL.qmean obs - QL.qmean hist in
   map (fun i => Qred (nth (rank_in fd i) bc 0 + (nth i fut 0 - nth i fd 0 + shift))) (seq 0 n).
 End SDM.
+
+(** ScaledDistributionMapping._apply_on_window_relative_sdm (precipitation): None = the ValueError raised when one
+    of the series has no value at or above the threshold *)
+Section SDMrel.
+Context {P : Type} (D : dist P).
+Variables (pr_thr cdf_thr : Q).
+
+Definition last_n {A} (k : nat) (l : list A) : list A := skipn (length l - k) l.
+
+Definition sdm_relative (obs hist fut : list Q) : option (list Q) :=
+  let fs := qsort fut in
+  let rainy l := filter (fun v => Qle_bool pr_thr v) l in
+  let ro := rainy (qsort obs) in let rh := rainy (qsort hist) in let rf := rainy fs in
+  if (Nat.eqb (length ro) 0 || Nat.eqb (length rh) 0 || Nat.eqb (length rf) 0)%bool then None else
+  let nq (l : list Q) := inject_Z (Z.of_nat (length l)) in
+  let expected0 := QL.round_half_even (nq rf * (nq ro / nq obs) / (nq rh / nq hist)) in
+  let expected := Z.to_nat (Z.min expected0 (Z.of_nat (length rf))) in
+  let fo := fit D ro in let fh := fit D rh in let ff := fit D rf in
+  let co := map (fun x => thr_cdf cdf_thr (cdf D fo x)) ro in
+  let ch := map (fun x => thr_cdf cdf_thr (cdf D fh x)) rh in
+  let cf := map (fun x => thr_cdf cdf_thr (cdf D ff x)) rf in
+  let m := length rf in
+  let coi := interp_len co m in let chi := interp_len ch m in
+  let bc := map (fun k =>
+       let cfk := nth k cf 0 in let cok := nth k coi 0 in let chk := nth k chi 0 in
+       let scaling := ppf D ff cfk / ppf D fh cfk in
+       let ri c := 1 / (1 - c) in
+       let ris := QL.qmax2 1 (ri cok * ri cfk / ri chk) in
+       let cs := thr_cdf default_thr (1 - 1 / ris) in
+       Qred (ppf D fo cs * scaling)) (seq 0 m) in
+  let n := length fut in
+  let sorted_out := repeat 0 (n - expected) ++ last_n expected bc in
+  Some (map (fun i => nth (rank_in fut i) sorted_out 0) (seq 0 n)).
+End SDMrel.
